@@ -346,6 +346,9 @@ def run():
         o = Obligation("patterns and selector", "z3 regex equivalence")
         o.verdict, o.detail = "inconclusive", str(e)
         rep.add(o)
+    # every selection option of `group` can be used: definition and access types of the clap options agree
+    from obligations import cli_types
+    cli_types.add(rep, ctx, ctx.lib, r"^GroupConfig$")
     return rep
 
 
